@@ -284,17 +284,26 @@ func (tx *Tx) buildBucketMetaIdx(bucket string, key []byte, bucketMetaTemp Bucke
 	}
 
 	if updateFlag {
+		if err := vfs("create", tx.db.getBucketMetaFilePath(bucket), -1, nil); err != nil {
+			return err
+		}
 		fd, err := os.OpenFile(tx.db.getBucketMetaFilePath(bucket), os.O_CREATE|os.O_RDWR, 0644)
 		defer fd.Close()
 		if err != nil {
 			return err
 		}
 
+		if err := vfs("write", tx.db.getBucketMetaFilePath(bucket), 0, bucketMeta.Encode()); err != nil {
+			return err
+		}
 		if _, err = fd.WriteAt(bucketMeta.Encode(), 0); err != nil {
 			return err
 		}
 
 		if tx.db.opt.SyncEnable {
+			if err := vfs("sync", tx.db.getBucketMetaFilePath(bucket), 0, nil); err != nil {
+				return err
+			}
 			if err = fd.Sync(); err != nil {
 				return err
 			}
